@@ -14,7 +14,8 @@ trap 'git -C /repo worktree remove --force "$wt" >/dev/null 2>&1; rm -rf "$out"'
 if ! git -C "$wt" apply "$PWD/seeded/$id/patch.diff"; then echo "seeded $id: patch does not apply to HEAD"; exit 2; fi
 VERIF_SEED="$seed" VERIF_REPO="$wt" VERIF_OUT="$out" ./run "$prop" "$tier" > "$out.log" 2>&1
 rc=$?
-grep -E "VIOLATION|signature:|KNOWN-FINDING|SUMMARY|BROKEN" "$out.log" | cut -c1-300 | head -12
+grep -aE "VIOLATION|signature:|BROKEN" "$out.log" | cut -c1-300 | head -10
+grep -aE "SUMMARY" "$out.log" | cut -c1-300 | head -2
 echo "SEEDED id=$id property=$prop tier=$tier seed=$seed exit=$rc $( [ $rc -eq 1 ] && echo CAUGHT || echo MISSED )"
 rm -f "$out.log"
 exit 0
